@@ -128,16 +128,32 @@ def run_deriv(case):
         errs = {eps: abs(fds[eps] - d_j) for eps in fds}
         best = min(errs.values())
         scale = max(1.0, abs(d_j))
+        if best > 2e-7 * scale:
+            # stiff response (large higher derivatives): continue the ladder while the finite difference is still converging
+            for eps in (1e-6, 1e-7):
+                ep, _ = wrapper(eps, Oj, pd)
+                em, _ = wrapper(-eps, Oj, pd)
+                fds[eps] = (float(ep) - float(em)) / (2 * eps)
+                errs[eps] = abs(fds[eps] - d_j)
+                cnt["fd_evals"] += 2
+            best = min(errs.values())
+        seq = [errs[e_] for e_ in sorted(errs, reverse=True)]   # errors from the largest to the smallest step
+        # "still converging": the error keeps shrinking by >= 10x per decade down to the finest step (a wrong derivative plateaus at its error)
+        converging = len(seq) == 5 and all(seq[i + 1] <= seq[i] / 10.0 for i in range(1, 4)) and seq[-1] <= 1e-4 * scale
         # divergence like 1/eps: the +-eps points straddle a discontinuity of the piecewise-smooth estimator
-        diverging = abs(fds[1e-5]) > 5 * abs(fds[1e-4]) > 25 * abs(fds[1e-3]) * 0.2 and abs(fds[1e-5] - fds[1e-4]) > 1e3 * scale * 1e-5
+        diverging = abs(fds[1e-5]) > 5 * abs(fds[1e-4]) > 25 * abs(fds[1e-3]) * 0.2 and abs(fds[1e-5] - fds[1e-4]) > 1e3 * scale * 1e-5 and not converging
         if best <= 2e-7 * scale:
             events.append(judge("derivative/jvp-equals-finite-difference", best / scale, 2e-7, key + "/jvp-vs-fd/" + name, jvp=d_j, fd=fds))
             nontriv = nontriv or abs(d_j) > 1e-6
+        elif converging:
+            events.append(ev("derivative/jvp-is-limit-of-finite-differences", True, seq[-1] / scale, 1e-4, key + "/jvp-vs-fd-stiff/" + name, jvp=d_j, fd=fds, errors=seq))
+            cnt["stiff_cases"] = cnt.get("stiff_cases", 0) + 1
+            nontriv = True
         elif diverging:
             cnt["discontinuities"] += 1
             events.append(ev("derivative/discontinuity-excluded", None, key="C06/discontinuity", fd=fds, jvp=d_j))
         else:
-            events.append(judge("derivative/jvp-equals-finite-difference", best / scale, 2e-7, key + "/jvp-vs-fd/" + name, jvp=d_j, fd=fds))
+            events.append(judge("derivative/jvp-equals-finite-difference", best / scale, 2e-7, key + "/jvp-vs-fd/" + name, jvp=d_j, fd=fds, errors=seq))
         sample["jvp_" + name] = d_j
         sample["fd_" + name] = fds[1e-4]
     # (iii-b) the same comparison from a state left by a previous block (pop_control shift != e_estimate, reconfigured walkers):
